@@ -16,11 +16,14 @@
                             (feedback set, handler ran, header removal, context duration,
                             echoed timeout_ms), for every interleaving
      CountsConsistent       calls[n] = number of requests named n that passed Count; ranks distinct
-     RoundTrip, ExactOnWellFormed, EveryDifferenceFlagged
-                            statement-level laws relating Feedback on the wire to Diff on aspects
-     DeviationCharacterised where value-based acceptance differs from the grammar
-     DurationLaws           monotone, exact below and saturating exactly above 2562047 h
-     Termination            every request is answered (fair scheduling, handler returns) *)
+     RejectedIsSilent       a request without test name is answered at once: no check, no handler
+     HandlerSeesCleanRequest the examined timeout header is gone when the inner handler runs
+     Monotone               headers are only removed, feedback only appended, handler runs once
+     Termination            every request is answered (fair scheduling, handler returns)
+
+   The statement-level laws of the declarative definitions themselves (feedback classes = differing
+   aspects, timeout grammar vs. value-based acceptance, exact saturating durations) are checked
+   over the whole domain in RefChecksLaws.tla. *)
 EXTENDS RefChecksSpace
 
 CONSTANTS Domain,      \* which bounded scenario space Init ranges over
@@ -82,9 +85,9 @@ InitRq ==
   \/ /\ Domain = "matrix"        \* one request, every E x several spellings of every A (reduced value sets)
      /\ \E e \in SmallTuples : \E a \in SmallTuples : \E v \in MatrixVariants(a) :
           rq = All(Req("t1", e, Render(a, v), NoHdr, NoHdr))
-  \/ /\ Domain = "near"          \* one request, full value sets, A within one aspect of E, all spellings,
-                                 \* trailers, foreign client certificate
-     /\ \E e \in Tuples : \E a \in Near(e) : \E v \in VariantsFor(a) : \E tr \in {0, 2} : \E pr \in NearPeers(a, tr) :
+  \/ /\ Domain \in {"near", "nearq"}   \* one request, full value sets (nearq: E from the reduced sets), A within
+                                 \* one aspect of E, all spellings, trailers, foreign client certificate
+     /\ \E e \in (IF Domain = "near" THEN Tuples ELSE SmallTuples) : \E a \in Near(e) : \E v \in VariantsFor(a) : \E tr \in {0, 2} : \E pr \in NearPeers(a, tr) :
           rq = All(Req("t1", e, [Render(a, v) EXCEPT !.trailers = tr, !.peer = pr], NoHdr, NoHdr))
   \/ /\ Domain = "timeout"       \* one request of the expected protocol, every timeout string
      /\ \/ TimeoutChoice(StringsUpTo(MaxLen))
